@@ -131,13 +131,15 @@ int main(int argc, char **argv) {
   tupleT2 = occa::dtype_t::tuple(occa::dtype::float_, 2);
   tupleI4 = occa::dtype_t::tuple(occa::dtype::int_, 4);
   customC = occa::dtype_t("myType", 8);
-  const occa::json props({{"compiler_flags", "-O0 -g0"}});
 
   for (size_t i = 0; i < items.size(); ++i) {
     printf("BEGIN %zu\n", i);
     std::vector<std::string> f = split(items[i], '\t');
     if (f.size() != 3) { printf("HARNESS bad item\nEND %zu\n", i); continue; }
     try {
+      // host definitions of the OKL vector types / size_t for the Serial compile
+      const std::string realDir = occa::io::dirname(occa::io::expandFilename(f[0]));
+      const occa::json props({{"compiler_flags", "-O0 -g0 -include " + realDir + "vec.h"}});
       // would the build be a cache hit?
       occa::json allProps; occa::hash_t kernelHash;
       const std::string realFilename = occa::io::expandFilename(f[0]);
